@@ -167,3 +167,58 @@ Proof.
   destruct (run_call s t o) as [s1 o1]. cbn [fst]. rewrite IH.
   destruct (run_from s1 (calls_sched s1 r)). reflexivity.
 Qed.
+
+(** ---- a publisher running alone completes, whatever the subscribers' channels hold ---- *)
+Lemma poll_n_add : forall a b s t, poll_n (a + b) s t = poll_n b (poll_n a s t) t.
+Proof. induction a as [|a IH]; intros b s t; cbn [poll_n Nat.add]; [reflexivity|apply IH]. Qed.
+
+Lemma fan_runs : forall rest s t tp d pr, get_pc s t = PubFan tp d rest pr ->
+  exists pr', get_pc (poll_n (length rest) s t) t = PubFan tp d [] pr' /\
+              lock (poll_n (length rest) s t) = lock s /\
+              entries (poll_n (length rest) s t) = entries s.
+Proof.
+  induction rest as [|e rest IH]; intros s t tp d pr Hpc; cbn [length poll_n].
+  - exists pr. tauto.
+  - unfold step_task at 1 2 3. rewrite Hpc. cbn [acquired].
+    assert (G : forall s1 pr1, get_pc s1 t = PubFan tp d rest pr1 -> lock s1 = lock s -> entries s1 = entries s ->
+      exists pr', get_pc (poll_n (length rest) s1 t) t = PubFan tp d [] pr' /\
+                  lock (poll_n (length rest) s1 t) = lock s /\ entries (poll_n (length rest) s1 t) = entries s).
+    { intros s1 pr1 H1 H2 H3. destruct (IH s1 t tp d pr1 H1) as [pr' [A [B C]]]. exists pr'. rewrite B, C. tauto. }
+    destruct (e_topic e =? tp).
+    + destruct (try_send (chans s) (e_chan e) _) as [[ | | ] cs]; cbn [fst];
+        (eapply G; [rewrite get_pc_set_pc, Z.eqb_refl; reflexivity|reflexivity|reflexivity]).
+    + cbn [fst]. eapply G; [rewrite get_pc_set_pc, Z.eqb_refl; reflexivity|reflexivity|reflexivity].
+Qed.
+
+Lemma publish_alone_completes : forall s t tp d, lock s = None -> get_pc s t = PubWait tp d ->
+  exists n, (n <= length (entries s) + 4)%nat /\
+            get_pc (poll_n n s t) t = Idle /\ lock (poll_n n s t) = None.
+Proof.
+  intros s t tp d Hl Hpc.
+  set (s1 := fst (step_task s t)).
+  assert (H1 : get_pc s1 t = PubFan tp d (entries s) [] /\ lock s1 = Some t /\ entries s1 = entries s).
+  { unfold s1, step_task. rewrite Hpc. cbn [acquired]. rewrite Hl. cbn [fst].
+    split; [unfold get_pc; cbn; rewrite lookup_update_eq; reflexivity|]. split; reflexivity. }
+  destruct H1 as [H1 [H2 H3]].
+  destruct (fan_runs (entries s) s1 t tp d [] H1) as [pr' [A [B C]]].
+  set (s2 := poll_n (length (entries s)) s1 t) in *.
+  assert (E12 : forall k, poll_n (S (length (entries s)) + k) s t = poll_n k s2 t).
+  { intro k. replace (S (length (entries s)) + k)%nat with (1 + (length (entries s) + k))%nat by lia.
+    rewrite poll_n_add. cbn [poll_n]. fold s1. rewrite poll_n_add. reflexivity. }
+  destruct pr' as [|x pr'].
+  - exists (S (length (entries s)) + 1)%nat. split; [lia|]. rewrite E12. cbn [poll_n].
+    unfold step_task. rewrite A. cbn [acquired fst]. unfold release_to.
+    split; [rewrite get_pc_set_pc, Z.eqb_refl; reflexivity|reflexivity].
+  - exists (S (length (entries s)) + 3)%nat. split; [lia|]. rewrite E12. cbn [poll_n].
+    set (s3 := fst (step_task s2 t)).
+    assert (H4 : get_pc s3 t = PruneWait (x :: pr') /\ lock s3 = None).
+    { unfold s3, step_task. rewrite A. cbn [acquired fst]. unfold release_to.
+      split; [rewrite get_pc_set_pc, Z.eqb_refl; reflexivity|reflexivity]. }
+    destruct H4 as [H4 H5].
+    set (s4 := fst (step_task s3 t)).
+    assert (H6 : get_pc s4 t = PruneHold (x :: pr')).
+    { unfold s4, step_task. rewrite H4. cbn [acquired]. rewrite H5. cbn [fst].
+      rewrite get_pc_set_pc, Z.eqb_refl. reflexivity. }
+    unfold step_task. fold s3. fold (step_task s3 t). fold s4. rewrite H6. cbn [acquired fst]. unfold release_to.
+    split; [rewrite get_pc_set_pc, Z.eqb_refl; reflexivity|reflexivity].
+Qed.
